@@ -15,6 +15,7 @@ import (
 
 	"verifharness/geometry"
 	"verifharness/internal/isolate"
+	"verifharness/live"
 	"verifharness/metadata"
 	"verifharness/peerfsm"
 	"verifharness/piecestore"
@@ -26,6 +27,7 @@ import (
 
 var bindings = map[string]func(in []byte) any{
 	"piecestore": piecestore.Replay,
+	"live":       live.Handle,
 	"peerfsm":    peerfsm.Replay,
 	"upload":     upload.Replay,
 	"c11x":       c11x.Handle,
